@@ -19,6 +19,8 @@ import (
 	"fmt"
 	stdhash "hash"
 	"math/big"
+	"os"
+	"os/exec"
 	"strings"
 
 	bls12_377_fr "github.com/consensys/gnark-crypto/ecc/bls12-377/fr"
@@ -211,6 +213,21 @@ func execC14(a []string) string {
 		return "bad-op"
 	}
 	switch a[0] {
+	case "fresh":
+		// C14 fresh <op…>: the op is answered by a NEW process whose very first call into gnark-crypto is the entry point of
+		// the op (package-level Sum, registry New, constructor, NewRSis, vortex helper): lazily initialised package state
+		// (round constants, default parameters) does not exist yet. Every executor below therefore runs the entry point
+		// under test BEFORE it compares the constants / keys on the line with GetConstants() / NewParameters().
+		if len(a) < 2 || a[1] == "fresh" {
+			return "bad-op"
+		}
+		cmd := exec.Command(os.Args[0], "-mode", "exec")
+		cmd.Stdin = strings.NewReader("C14 " + strings.Join(a[1:], " ") + "\n")
+		out, err := cmd.Output()
+		if err != nil {
+			return "err:spawn"
+		}
+		return strings.TrimSpace(string(out))
 	case "mimc":
 		return execMimc(a[1:])
 	case "p2perm", "p2comp", "md":
@@ -234,20 +251,32 @@ func execMimc(a []string) string {
 	if m == nil {
 		return "bad-op"
 	}
-	// the constants on the line must be the ones the implementation uses (the model cannot run Keccak)
+	// the entry point under test runs first (it may be the first call of the process); only then are the constants on the
+	// line compared with the ones the implementation uses (the model cannot run Keccak; GetConstants() initialises them)
+	res := execMimc1(m, a[0], a[3:])
 	if a[2] != c14HexBigs(m.consts()) {
 		return "bad-consts"
 	}
-	switch a[0] {
+	return res
+}
+
+func execMimc1(m *mimcInst, ctor string, toks []string) string {
+	switch ctor {
 	case "new":
-		return runHistories(func() stdhash.Hash { return m.newH() }, a[3:], true)
+		return runHistories(func() stdhash.Hash { return m.newH() }, toks, true)
 	case "le":
-		return runHistories(func() stdhash.Hash { return m.newLE() }, a[3:], true)
+		return runHistories(func() stdhash.Hash { return m.newLE() }, toks, true)
 	case "reg":
-		return runHistories(func() stdhash.Hash { return m.reg.New() }, a[3:], true)
+		return runHistories(func() stdhash.Hash { return m.reg.New() }, toks, true)
+	case "regsize":
+		// what the registry says about the digest size of its id, and what the function it constructs does
+		if len(toks) != 0 {
+			return "bad-op"
+		}
+		return c14RegSize(m.reg)
 	case "fn":
 		var outs []string
-		for _, t := range a[3:] {
+		for _, t := range toks {
 			outs = append(outs, func() (res string) {
 				defer func() {
 					if r := recover(); r != nil {
@@ -265,6 +294,14 @@ func execMimc(a []string) string {
 		return join(outs)
 	}
 	return "bad-op"
+}
+
+// `hash.Hash.Size()` of a registry id, `Size()` of the hasher it constructs, length of the digest of the empty message
+func c14RegSize(id hash.Hash) string {
+	g := func(f func() int) string {
+		return c14Guard(func() string { return fmt.Sprintf("%x", f()) })
+	}
+	return g(id.Size) + " " + g(func() int { return id.New().Size() }) + " " + g(func() int { return len(id.New().Sum(nil)) })
 }
 
 // ---------------------------------------------------------------- generation
@@ -530,4 +567,93 @@ func genC14(g *gen) {
 	genP2(g)
 	c14GenVx(g)
 	genSis(g)
+	c14GenRegSize(g)
+	c14GenFresh(g)
+}
+
+// registry metadata: `hash.Hash.Size()` of every registered id against the function the id constructs
+func c14GenRegSize(g *gen) {
+	for mi := range mimcs {
+		m := &mimcs[mi]
+		g.emit("C14 mimc regsize %s %s", m.name, c14HexBigs(m.consts()))
+	}
+	for pi := range p2Pkgs {
+		p := &p2Pkgs[pi]
+		dt, drf, drp := p.dflt()
+		g.emit("C14 md regsize %s %x %x %x %s", p.name, dt, drf, drp, p.keys(dt, drf, drp))
+	}
+}
+
+// every entry point of the property as the FIRST call of a fresh process (`C14 fresh <op…>`, one process per line): the
+// package-level one-shot Sum, the three ways to a MiMC hasher, Permutation / Compress / the Merkle-Damgard hashers of every
+// Poseidon2 package (registry, package constructor, generic constructor), the vortex helpers, NewRSis + Hash of every
+// ring-SIS package. Lazily initialised package state (round constants, default parameters, FFT domains) does not exist yet.
+func c14GenFresh(g *gen) {
+	for mi := range mimcs {
+		m := &mimcs[mi]
+		f := fields[m.field]
+		consts := c14HexBigs(m.consts())
+		for _, ctor := range []string{"fn", "new", "reg", "le"} {
+			al := &histAlphabet{size: f.Bytes(), esize: f.Bytes(), q: f.Q(), le: ctor == "le"}
+			B := func() []byte { return al.block(g.rng, false) }
+			if ctor == "fn" {
+				g.emit("C14 fresh mimc fn %s %s %s %s %s", m.name, consts, hexBytes(c14Cat(B(), B(), B())), hexBytes(B()), hexBytes(B()[al.size-2:]))
+				continue
+			}
+			g.emit("C14 fresh mimc %s %s %s W:%s S:- T W:%s S:- | S:-", ctor, m.name, consts, hexBytes(B()), hexBytes(c14Cat(B(), B())))
+		}
+	}
+	for pi := range p2Pkgs {
+		p := &p2Pkgs[pi]
+		f := fields[p.field]
+		q, eb := f.Q(), f.Bytes()
+		dt, drf, drp := p.dflt()
+		hdr := fmt.Sprintf("%s %x %x %x %s", p.name, dt, drf, drp, p.keys(dt, drf, drp))
+		g.emit("C14 fresh p2perm %s %s %s", hdr, c14ShowBigs(c14RandVec(g, q, dt)), c14ShowBigs(c14RandVec(g, q, dt)))
+		al := &histAlphabet{size: (dt / 2) * eb, esize: eb, q: q, md: true}
+		B := func() []byte { return al.block(g.rng, false) }
+		g.emit("C14 fresh p2comp %s %s:%s %s:%s", hdr, hexBytes(B()), hexBytes(B()), hexBytes(B()), hexBytes(B()))
+		hist := func() string {
+			return fmt.Sprintf("W:%s S:- T W:%s S:- | S:-", hexBytes(B()), hexBytes(c14Cat(B(), B())))
+		}
+		g.emit("C14 fresh md reg %s %s", hdr, hist())
+		g.emit("C14 fresh md new %s %s", hdr, hist())
+		if dt == 2 {
+			g.emit("C14 fresh md gen:%s %s %s", hexBytes(B()), hdr, hist())
+		}
+		// a non-default width / round numbers: NewParameters + NewPermutation as the first call
+		t2 := p2Widths(p)[1]
+		g.emit("C14 fresh p2perm %s %x 2 1 %s %s", p.name, t2, p.keys(t2, 2, 1), c14ShowBigs(c14RandVec(g, q, t2)))
+	}
+	{
+		p := p2ByName("koalabear")
+		q := fields["koalabear"].Q()
+		g.emit("C14 fresh vx comp %s %s:%s", p.keys(16, 6, 21), c14ShowBigs(c14RandVec(g, q, 8)), c14ShowBigs(c14RandVec(g, q, 8)))
+		g.emit("C14 fresh vx hash %s %s %s %s", p.keys(24, 6, 21), c14ShowBigs(c14RandVec(g, q, 16)), c14ShowBigs(c14RandVec(g, q, 48)), c14ShowBigs(c14RandVec(g, q, 32)))
+		rows := make([]string, 16)
+		for j := range rows {
+			rows[j] = c14ShowBigs(c14RandVec(g, q, 16))
+		}
+		g.emit("C14 fresh vx hash16 %s %s", p.keys(24, 6, 21), strings.Join(rows, ";"))
+	}
+	for pi := range sisPkgs {
+		p := &sisPkgs[pi]
+		f := fields[p.field]
+		q := f.Q()
+		type ps struct{ ld, lb, mx int }
+		sets := []ps{{2, 8, 3}, {3, 16, 9}, {6, 16, 4}}
+		if p.name == "koalabear" || p.name == "babybear" {
+			sets = append(sets, ps{9, 16, 8}) // AVX-512 path
+		}
+		for _, s := range sets {
+			seed := int64(g.rng.intn(1000))
+			as, _, _, err := p.open(seed, s.ld, s.lb, s.mx)
+			if err != nil {
+				continue
+			}
+			v1, v2 := c14ShowBigs(c14RandVec(g, q, s.mx)), c14ShowBigs(c14RandVec(g, q, 1+g.rng.intn(s.mx)))
+			g.emit("C14 fresh sis %s %x %x %x %x %s %s %s", p.name, seed, s.ld, s.lb, s.mx, as, v1, v2)
+			g.emit("C14 fresh sisd %s %x %x %x %x %s %s/g %s", p.name, seed, s.ld, s.lb, s.mx, as, v2, v1)
+		}
+	}
 }
